@@ -822,8 +822,18 @@ class Generator(TreeListener):
             deps = ca.vertcat(*orig_deps)
             J = ca.Function("J", [deps], [ca.jacobian(s, deps)])
             J_sparsity = J.sparsity_out(0)
+            # The Jacobian has one column per element of each dependency
+            offsets = np.cumsum([0] + [dep.numel() for dep in orig_deps])
             der_deps = [
-                self.get_derivative(dep) if J_sparsity.has_nz(0, j) else ca.DM.zeros(dep.size())
+                (
+                    self.get_derivative(dep)
+                    if any(
+                        J_sparsity.has_nz(i, k)
+                        for i in range(J_sparsity.size1())
+                        for k in range(offsets[j], offsets[j + 1])
+                    )
+                    else ca.DM.zeros(dep.size())
+                )
                 for j, dep in enumerate(orig_deps)
             ]
             return ca.mtimes(J(deps), ca.vertcat(*der_deps))
